@@ -32,6 +32,8 @@ type c12Config struct {
 	Threads int    `json:"threads"`
 	Procs   int    `json:"gomaxprocs"`
 	Jitter  uint64 `json:"jitter_seed"` // 0 = off
+	SlowIdx int    `json:"slow_idx"`    // >= 0: the worker carrying this record index is held back SlowUS at every stage boundary
+	SlowUS  uint64 `json:"slow_us"`
 }
 
 type c12Case struct {
@@ -119,6 +121,9 @@ func checkC12Proc(c c12Case, o *Obs) error {
 	for _, cfg := range c.Configs {
 		args, _ := c12Args(c, dir, cfg.Threads)
 		env := []string{"GOMAXPROCS=" + strconv.Itoa(cfg.Procs), "VERIF_JITTER=" + strconv.FormatUint(cfg.Jitter, 10)}
+		if cfg.SlowUS > 0 {
+			env = append(env, "VERIF_JITTER_SLOWIDX="+strconv.Itoa(cfg.SlowIdx), "VERIF_JITTER_SLOWUS="+strconv.FormatUint(cfg.SlowUS, 10))
+		}
 		for r := 0; r < c.Reps; r++ {
 			got := runBinEnv(60*time.Second, "", nil, env, args...)
 			stats.count("process_runs", 1)
@@ -147,6 +152,12 @@ func checkC12Proc(c c12Case, o *Obs) error {
 func c12Run(c c12Case, cfg c12Config) (string, error) {
 	runtime.GOMAXPROCS(cfg.Procs)
 	vhook.Configure(cfg.Jitter, 300)
+	if cfg.SlowUS > 0 {
+		vhook.ConfigureSlow(cfg.SlowIdx, cfg.SlowUS)
+	} else {
+		vhook.ConfigureSlow(-1, 0)
+	}
+	defer vhook.ConfigureSlow(-1, 0)
 	defer runtime.GOMAXPROCS(runtime.NumCPU())
 	var out bytes.Buffer
 	switch c.Cmd {
@@ -254,10 +265,11 @@ func checkC12(c c12Case, o *Obs) error {
 	}
 	o.Label("cmd:" + c.Cmd)
 	o.LabelIf(c.Flag, "flag(aggregate/table/wrap/omit-ref)")
-	base, err := c12Run(c, c12Config{Threads: 1, Procs: runtime.NumCPU(), Jitter: 0})
+	base, err := c12Run(c, c12Config{Threads: 1, Procs: runtime.NumCPU(), Jitter: 0, SlowIdx: -1})
 	if err != nil {
 		return fmt.Errorf("baseline run: %v", err)
 	}
+	o.LabelIf(c.nRecords() > 256, "records>256")
 	reps := c.Reps
 	if os.Getenv("VERIF_REPLAY") != "" {
 		reps *= 10 // a schedule-dependent failure cannot be shrunk: the replay re-runs the configuration many times
@@ -287,7 +299,7 @@ func checkC12(c c12Case, o *Obs) error {
 	}
 	// repeated baseline runs: map iteration order must not matter either
 	for r := 0; r < 3; r++ {
-		got, err := c12Run(c, c12Config{Threads: 1, Procs: runtime.NumCPU(), Jitter: 0})
+		got, err := c12Run(c, c12Config{Threads: 1, Procs: runtime.NumCPU(), Jitter: 0, SlowIdx: -1})
 		stats.count("runs", 1)
 		if err != nil {
 			return err
@@ -306,7 +318,7 @@ func genC12(t *rapid.T) c12Case {
 	c := c12Case{Cmd: rapid.SampledFrom(c12Cmds).Draw(t, "cmd"), Flag: rapid.Bool().Draw(t, "flag")}
 	switch c.Cmd {
 	case "toMultiAlign", "toPairAlign", "toPairAlign-stdout":
-		in := genSamInput(t, samGenOpts{maxRef: 40, maxQueries: 12, maxRecs: 2, allowNoise: true, hugeEvery: 5})
+		in := genSamInput(t, samGenOpts{maxRef: 40, maxQueries: 12, maxRecs: 2, allowNoise: true, hugeEvery: 5, manyEvery: 5, manyTargets: []int{300, 420, 700}})
 		// at least 8 queries: pad with copies under new names
 		names := in.queryNames()
 		for k := 0; len(in.queryNames()) < 8; k++ {
@@ -371,11 +383,26 @@ func genC12(t *rapid.T) c12Case {
 	}
 	ncfg := rapid.IntRange(2, 4).Draw(t, "nConfigs")
 	for i := 0; i < ncfg; i++ {
-		c.Configs = append(c.Configs, c12Config{
+		cfg := c12Config{
 			Threads: rapid.SampledFrom([]int{1, 2, 3, 4, 8, 16}).Draw(t, "threads"),
 			Procs:   rapid.SampledFrom([]int{1, 2, 4, 16}).Draw(t, "procs"),
 			Jitter:  uint64(rapid.IntRange(0, 1<<30).Draw(t, "jitterSeed")),
-		})
+			SlowIdx: -1,
+		}
+		if rapid.IntRange(0, 2).Draw(t, "slowRecord") == 0 {
+			// one record's worker is held back long enough for hundreds of later records to overtake it
+			cfg.SlowIdx = rapid.IntRange(0, maxInt(0, c.nRecords()-1)).Draw(t, "slowIdx")
+			if rapid.Bool().Draw(t, "slowEarly") {
+				cfg.SlowIdx = rapid.IntRange(0, minInt(3, maxInt(0, c.nRecords()-1))).Draw(t, "slowIdxEarly")
+			}
+			cfg.SlowUS = uint64(rapid.SampledFrom([]int{1000, 3000, 8000}).Draw(t, "slowUS"))
+		}
+		c.Configs = append(c.Configs, cfg)
+	}
+	if c.nRecords() > 256 {
+		// an early record held back while hundreds of later ones complete: the classic stress for a re-ordering writer
+		c.Configs = append(c.Configs, c12Config{Threads: rapid.SampledFrom([]int{4, 8, 16}).Draw(t, "manyThreads"), Procs: 16,
+			Jitter: uint64(rapid.IntRange(0, 1<<30).Draw(t, "manyJitter")), SlowIdx: rapid.IntRange(0, 20).Draw(t, "manySlowIdx"), SlowUS: 8000})
 	}
 	c.Reps = rapid.IntRange(1, 3).Draw(t, "reps")
 	c.Proc = rapid.IntRange(0, 3).Draw(t, "proc") == 0
@@ -383,3 +410,17 @@ func genC12(t *rapid.T) c12Case {
 }
 
 func TestC12(t *testing.T) { runProp(t, "C12", genC12, checkC12) }
+
+func maxInt(a, b int) int {
+	if a > b {
+		return a
+	}
+	return b
+}
+
+func minInt(a, b int) int {
+	if a < b {
+		return a
+	}
+	return b
+}
